@@ -151,6 +151,17 @@ func (ch *Chain) Fork() *Chain {
 	return &Chain{F: ch.F, Ctx: cc, C: ch.C, Cfg: ch.Cfg, V: ch.V.clone(), O: ch.O}
 }
 
+// SpecFork is a branch as a node's speculative execution makes it (optimistic execution, a proposal that is later
+// abandoned): the store is branched, but everything the process keeps in memory - here the registry of executor-change
+// plans - is the node's one copy.
+func (ch *Chain) SpecFork() *Chain {
+	f := ch.Fork()
+	if f.V != nil && ch.V != nil {
+		f.V.Plans = ch.V.Plans
+	}
+	return f
+}
+
 type Outcome struct {
 	OK   bool
 	Resp M
